@@ -104,6 +104,10 @@ func runLate(c *sup.Child, b sup.Batch) {
 			runFirsts(c, idx)
 			continue
 		}
+		if idx%6 == 4 {
+			runRefused(c, idx)
+			continue
+		}
 		rng := c.Rand(idx)
 		l := &lateRun{gate: make(chan struct{}), lateFails: rng.Intn(2) == 0, work: 1 + rng.Intn(40)}
 		desc := map[string]any{"kind": "late", "late_task_fails": l.lateFails, "work_rounds": l.work}
